@@ -22,8 +22,12 @@ namespace Thr2Aio
 inductive Flavour | plain | ts deriving DecidableEq, Repr
 inductive Kind | soon | rel deriving DecidableEq, Repr
 /-- who disposes: a callback on the loop thread / another thread while the loop runs / a thread while
-the loop is not running (and does not start before `dispose()` has returned) -/
+the loop is not running — never started yet, or stopped again after having run — and does not (re)start
+before `dispose()` has returned -/
 inductive Mode | onLoop | foreign | notRunning deriving DecidableEq, Repr
+/-- how the action was scheduled: from a callback on the loop thread / from another thread while the loop
+runs / before the loop was started -/
+inductive SMode | onLoop | foreign | pre deriving DecidableEq, Repr
 /-- `_on_self_loop_or_not_running` on a thread that has no running loop: `asIs` answers True (pinned
 tree, the defect), `fixed` answers False (marshal the cancellation) -/
 inductive Test | asIs | fixed deriving DecidableEq, Repr
@@ -31,6 +35,7 @@ inductive Test | asIs | fixed deriving DecidableEq, Repr
 structure Cfg where
   fl : Flavour
   kind : Kind
+  smode : SMode
   mode : Mode
   test : Test
 deriving DecidableEq, Repr
@@ -57,7 +62,13 @@ structure St where
   early : Bool := false     -- a relative action started before its due time
 deriving DecidableEq, Repr
 
-def init (c : Cfg) : St := { running := c.mode != .notRunning }
+def init (c : Cfg) : St := { running := c.smode != .pre }
+
+/-- the user's current call (schedule while `up < 10`, dispose afterwards) runs on the loop thread -/
+def userOnLoop (c : Cfg) (s : St) : Bool := if s.up < 10 then c.smode == .onLoop else c.mode == .onLoop
+
+/-- the user is in the middle of a call -/
+def midCall (s : St) : Bool := !(s.up == 0 || s.up == 10 || s.up == 20)
 
 /-- the action body begins (on the loop thread) -/
 def start (c : Cfg) (s : St) : St :=
@@ -84,7 +95,7 @@ def loopStep (c : Cfg) (s : St) : Option (St × String) :=
   if !s.running then none
   -- a callback of the loop thread runs to completion: while the user's call is in progress on the loop
   -- thread (mode onLoop) the loop does nothing else
-  else if c.mode == .onLoop && !(s.up == 0 || s.up == 10 || s.up == 20) then none
+  else if userOnLoop c s && midCall s then none
   else match s.lp with
   | 1 => some ({ s with l2 := .timer, c2 := false, lp := 2 }, "later")
   | 2 => some ({ s with hs := s.hs ++ [2], lp := 0 }, "append")
@@ -106,7 +117,7 @@ def loopStep (c : Cfg) (s : St) : Option (St × String) :=
 iteration, whether or not other handles are ready: a separate action, enabled between callbacks) -/
 def collectStep (c : Cfg) (s : St) : Option (St × String) :=
   if !s.running || s.lp != 0 then none
-  else if c.mode == .onLoop && !(s.up == 0 || s.up == 10 || s.up == 20) then none
+  else if userOnLoop c s && midCall s then none
   else if s.due && s.l1 == .timer then some ({ s with l1 := .ready, rq := s.rq ++ [1] }, "collect1")
   else if s.due && s.l2 == .timer then some ({ s with l2 := .ready, rq := s.rq ++ [2] }, "collect2")
   else none
@@ -116,7 +127,10 @@ queued, not yet appended to `handle`; 10 scheduled; 11 direct cancel of the sing
 about to queue cancel_handle; 13 waiting for the future; 14/15 direct `do_cancel_handles` first / second
 pop; 19 about to return; 20 returned. -/
 def userStep (c : Cfg) (s : St) : Option (St × String) :=
-  if c.mode == .onLoop && (!s.running || s.lp != 0) then none
+  if userOnLoop c s && (!s.running || s.lp != 0) then none
+  -- dispose() is called from another thread while the loop runs / while it is not running
+  else if s.up == 10 && c.mode == .foreign && !s.running then none
+  else if s.up == 10 && c.mode == .notRunning && s.running then none
   else match s.up with
   | 0 =>
     match c.fl, c.kind with
@@ -149,20 +163,29 @@ def userStep (c : Cfg) (s : St) : Option (St × String) :=
   | _ => none
 
 /-- actions: 0 = loop thread runs the next ready handle / the next step of `stage2`, 1 = user thread,
-2 = the clock reaches the timer's due time, 3 = the loop is started (mode notRunning: only once dispose()
-has returned — the property's proviso), 4 = the loop thread moves a due timer to the ready queue -/
+2 = the clock reaches the timer's due time, 3 = the loop is (re)started (mode notRunning: only once dispose()
+has returned — the property's proviso), 4 = the loop thread moves a due timer to the ready queue,
+5 = the loop is stopped -/
 def stepL (c : Cfg) (s : St) (a : Nat) : Option (St × String) :=
   match a with
   | 0 => loopStep c s
   | 1 => userStep c s
   | 2 => if !s.due && (s.l1 == .timer || s.l2 == .timer) then some ({ s with due := true }, "tick") else none
-  | 3 => if !s.running && s.returned then some ({ s with running := true }, "startloop") else none
+  | 3 =>
+    -- the loop is (re)started: once dispose() has returned, or — scheduled before the first start and
+    -- disposed on / while the loop runs — once the action is scheduled
+    if !s.running && (s.returned || (c.smode == .pre && c.mode != .notRunning && s.up == 10))
+    then some ({ s with running := true }, "startloop") else none
   | 4 => collectStep c s
+  | 5 =>
+    -- the running loop is stopped (between callbacks) before a dispose that is to happen while it is stopped
+    if s.running && s.lp == 0 && s.up == 10 && c.mode == .notRunning
+    then some ({ s with running := false }, "stoploop") else none
   | _ => none
 
 def step (c : Cfg) (s : St) (a : Nat) : Option St := (stepL c s a).map (·.1)
 
-def acts : List Nat := [0, 1, 2, 3, 4]
+def acts : List Nat := [0, 1, 2, 3, 4, 5]
 
 /-- any list of actions is a schedule; actions that are not enabled are skipped -/
 def run (c : Cfg) (s : St) : List Nat → St
@@ -191,7 +214,7 @@ def closure (c : Cfg) : Nat → List St → List St
     let seen' := addNew seen (seen.flatMap (succs c))
     if seen'.length = seen.length then seen else closure c n seen'
 
-def reach (c : Cfg) : List St := closure c 64 [init c]
+def reach (c : Cfg) : List St := closure c 96 [init c]
 
 /-- `R` contains the initial state and is closed under every action -/
 def Closed (c : Cfg) (R : List St) : Bool :=
